@@ -808,6 +808,25 @@ def bounded(rep, tier):
                         'every pair of a zoo of real steps / results / plans / columns / nodes / plain values')
 
 
+def _self_stores(k):
+    """names stored as `self.<name> = ...` (or augmented / setattr(self, '<name>', ...)) anywhere in the class and its bases"""
+    import ast as _ast, inspect as _inspect, textwrap as _tw
+    names = set()
+    for c in k.__mro__:
+        if c is object:
+            continue
+        try:
+            tree = _ast.parse(_tw.dedent(_inspect.getsource(c)))
+        except Exception:
+            return {'*ANY*'} | set(vars(k))          # source not available: be conservative, every name counts
+        for n in _ast.walk(tree):
+            if isinstance(n, _ast.Attribute) and isinstance(n.ctx, _ast.Store) and isinstance(n.value, _ast.Name) and n.value.id == 'self':
+                names.add(n.attr)
+            if isinstance(n, _ast.Call) and isinstance(n.func, _ast.Name) and n.func.id == 'setattr' and len(n.args) >= 2 and isinstance(n.args[1], _ast.Constant):
+                names.add(n.args[1].value)
+    return names
+
+
 def class_level_obligations(rep):
     """copy() / deepcopy() copy the instance dictionary, never the class: a mutable container that a node class holds at class level is shared by a tree and
     all its copies.  Census over every class of the imported parser / planner packages that is a tree node, a table column, a plan step, a result or a plan."""
@@ -832,7 +851,11 @@ def class_level_obligations(rep):
             for an, av in vars(k).items():
                 if an.startswith('__'):
                     continue
-                if isinstance(av, (list, dict, set, bytearray)) or isinstance(av, roots):
+                if isinstance(av, roots):
+                    bad.append((k, an, av))             # a node / step held by the class: every instance and copy reaches the same object
+                elif isinstance(av, (list, dict, set, bytearray)) and an in _self_stores(k):
+                    # a mutable class-level value under a name that instances also store: the class value is the default an instance (and its copies) falls
+                    # back to whenever the store is skipped.  (A class-level table that no instance attribute shadows is a constant of the class, not node data.)
                     bad.append((k, an, av))
     fn = 'mindsdb_sql.parser.ast.base:ASTNode.__init__'
     clause = 'no class whose instances are copied holds a mutable container or a node at class level (the copy would share it with the original)'
